@@ -462,6 +462,9 @@ def verify_function(interp, contract: Contract, inst: Instance, prop_prefix=""):
         interp.no_contract.add(contract.qualname)
         if getattr(contract, "on_path_start", None):
             contract.on_path_start(interp, ctx)
+        # reductions carried by an element loop over a symbolic index space are specified by the contract
+        ctx.loop_folds = (lambda: contract.loop_folds(SpecCtx(interp, ctx, contract, mode="verify"), *pristine_args, **pristine_kwargs)) \
+            if getattr(contract, "loop_folds", None) else None
         try:
             if contract.body is not None:
                 got = run_outcome(lambda: contract.body(interp, ctx, args, kwargs))
